@@ -22,5 +22,7 @@ def run(ctx):
     failures += progflow.judge(ctx, progflow.scale_cases(ctx, "C04"), "scale")
     # every ordered pair of feature snippets x every composition mode (spec/FamPairs.tla): the pairs whose highest property is this one
     failures += progflow.judge(ctx, progflow.pair_cases(ctx, "C04"), "pairs")
+    # run-time histories (spec/FamHist.tla): a function with nested loops, left by a return from the inner loop, called again - condition and increment probed
+    failures += progflow.judge(ctx, [c for c in progflow.hist_cases(ctx, ("calls",)) if "/nestretp/" in c["id"] or "/loop/" in c["id"]], "hist")
     progflow.report(ctx, failures)
     return ctx.finish(rule=RULE, assumptions=ASSUME)
